@@ -9,7 +9,7 @@ from __future__ import annotations
 from dataclasses import dataclass, field
 from typing import Callable, Dict, List, Optional, Tuple
 
-from . import cc, er, lk, on, sh, wk
+from . import bd, cc, er, ev, ex, fs, lk, on, oo, rd, rt, sh, st, vw, wk
 
 
 @dataclass
@@ -52,6 +52,42 @@ RULE_GROUPS: Dict[str, Callable] = {
     'er.raise_provenance': er.rule_raise_provenance,
     'er.partial_lookups': er.rule_partial_lookups,
     'er.errors_as_values': er.rule_errors_as_values,
+    'st.finish_predicates': st.rule_finish_predicates,
+    'st.ready_strict': st.rule_ready_strict,
+    'st.store_contract': st.rule_store_contract,
+    'rd.launch_gated': rd.rule_launch_gated,
+    'rd.field_agreement': rd.rule_field_agreement,
+    'rd.switch_indirection': rd.rule_switch_indirection,
+    'rd.kwargs_from_edges': rd.rule_kwargs_from_edges,
+    'rd.filtered_view': rd.rule_filtered_view,
+    'rd.error_gate_siblings': rd.rule_error_gate_siblings,
+    'oo.oneof_sequential': oo.rule_oneof_sequential,
+    'oo.oneof_exhaustion': oo.rule_oneof_exhaustion,
+    'oo.flag_propagation': oo.rule_flag_propagation,
+    'oo.error_gate': oo.rule_error_gate,
+    'oo.recurrent_loop': oo.rule_recurrent_loop,
+    'rt.policy_defaults': rt.rule_policy_defaults,
+    'rt.retry_loop': rt.rule_retry_loop,
+    'ev.pipeline_events': ev.rule_pipeline_events,
+    'ev.node_events': ev.rule_node_events,
+    'ev.emit_all': ev.rule_emit_all,
+    'bd.marks': bd.rule_marks,
+    'bd.edges': bd.rule_edges,
+    'bd.constructs': bd.rule_constructs,
+    'bd.node_map_and_validation': bd.rule_node_map_and_validation,
+    'bd.rejections': bd.rule_rejections,
+    'ex.validation_first': ex.rule_validation_first,
+    'ex.decision_table': ex.rule_decision_table,
+    'ex.is_ready': ex.rule_is_ready,
+    'ex.dispatch_transparent': ex.rule_dispatch_transparent,
+    'fs.mode_agreement': fs.rule_mode_agreement,
+    'fs.rollback': fs.rule_rollback,
+    'fs.exact_key': fs.rule_exact_key,
+    'fs.saves': fs.rule_saves,
+    'vw.nodes_and_edges': vw.rule_nodes_and_edges,
+    'vw.pure': vw.rule_pure,
+    'vw.schema': vw.rule_schema,
+    'vw.types': vw.rule_types,
 }
 
 RULES: Dict[str, Tuple[str, str]] = {
@@ -107,6 +143,79 @@ RULES: Dict[str, Tuple[str, str]] = {
     'ER-5': ('er.partial_lookups', 'no partial look-up keyed by a node result without a dominating membership guard'),
     'ER-6': ('er.errors_as_values', 'a caught exception is returned as a value only under the is_oneof flag; no handler of the '
                                     'manager swallows an exception'),
+    'WK-g': ('st.finish_predicates', 'the predicate of every waiter for a node result is true for every visible final value '
+                                     '(None, falsy, truthy) and false while the result is absent or hidden (finite-domain '
+                                     'abstract interpretation of the store and the predicate)'),
+    'RD-2': ('st.ready_strict', 'the readiness predicate is false for an absent, hidden or Recurrent predecessor result and true '
+                                'for visible final values (abstract interpretation over all store states)'),
+    'SW-4': ('st.store_contract', 're-arming a node hides it in every store that readiness, ordering or routing reads'),
+    'ST-1': ('st.store_contract', 'publishing into a store makes the entry visible with exactly the published value from every '
+                                  'prior state (absent, hidden, visible)'),
+    'RD-1': ('rd.launch_gated', 'in the launch loop every spawn is dominated, within the iteration, by the readiness wait on the '
+                                'loop variable'),
+    'RD-3': ('rd.field_agreement', 'builder and run manager agree on the graph attribute vocabulary (every NodeField / EdgeField '
+                                   'member written by the builder is read by the manager and vice versa); argument names come from '
+                                   'the edges\' kwarg_name'),
+    'RD-4': ('rd.kwargs_from_edges', 'the input node receives exactly (a copy of) the caller\'s input_kwargs'),
+    'SW-3': ('rd.switch_indirection', 'every consumer of predecessor results replaces a switch predecessor by the selected case'),
+    'SW-1': ('rd.filtered_view', 'every sub-dag cut on the run path is cut from the filtered view, whose filters reject exactly '
+                                 'case_branch edges and untried one-of candidates'),
+    'RD-6': ('rd.error_gate_siblings', 'every function that runs a possibly errors-as-values sub-dag tests it for errors'),
+    'OO-1': ('oo.oneof_sequential', 'the candidate loop reaches the next candidate only through the wait on the current one and '
+                                    'the failed outcome of the error test'),
+    'OO-2': ('oo.oneof_sequential', 'candidates are tried in the declared order of oneof_nodes'),
+    'OO-5': ('oo.oneof_exhaustion', 'exhaustion of the candidates publishes or raises OneOfDoesNotHaveResultError on every path'),
+    'OO-4': ('oo.flag_propagation', 'every sub-dag inherits the errors-as-values flag of the dag it is created for'),
+    'OO-6': ('oo.error_gate', 'in the launch loop every spawn is dominated by the has-subgraph-error gate of the iteration'),
+    'RC-1': ('oo.recurrent_loop', 'the re-execution loop is range(max_iterations of the destination) and runs the subgraph exactly '
+                                  'once per iteration'),
+    'RC-2': ('oo.recurrent_loop', 'the marker data is handed over before every run and read by the argument builder from the same slot'),
+    'RC-4': ('oo.recurrent_loop', 'on exhaustion the default is produced only for a Recurrent marker under use_default, otherwise '
+                                  'RecurrentSubgraphDoesNotHaveResultError is published or raised'),
+    'RT-1': ('rt.policy_defaults', 'the retry policy maps delay/attempts/exceptions with the documented defaults 0 / 1 / (Exception,)'),
+    'RT-2': ('rt.retry_loop', 'the handlers around the node invocation are (policy.exceptions, Exception); BaseException is not caught'),
+    'RT-3': ('rt.retry_loop', 'get_default is invoked with the same keyword arguments as the body'),
+    'RT-4': ('rt.retry_loop', 'every retry sleeps the configured delay and invokes the body exactly once'),
+    'RT-5': ('rt.retry_loop', 'the attempt counter idiom yields exactly `attempts` invocations'),
+    'RT-6': ('rt.retry_loop', 'exhausted or non-retryable failures yield the default only under use_default, otherwise the caught '
+                              'exception is re-raised; the non-retryable handler never retries'),
+    'EV-1': ('ev.pipeline_events', 'every path of PipelineChart.run spells pipeline_start . entrypoint.run . '
+                                   'pipeline_complete(result) . return result'),
+    'EV-2': ('ev.node_events', 'every path of a node execution spells S ((B|D) Ce)* (B|D) D? (C0 P | Ce P?)'),
+    'EV-3': ('ev.emit_all', 'the dispatcher awaits the callback of every event manager in list order'),
+    'BD-1': ('bd.marks', 'the marks collected from annotations are exactly the marks the traversal translates'),
+    'VL-5': ('bd.marks', 'every public mark class is either translated or rejected by the builder'),
+    'BD-2': ('bd.edges', 'every mark branch adds exactly one kwarg_name edge into the consumer, named after the parameter'),
+    'BD-3': ('bd.edges', 'two parameters bound to the same node remain distinguishable on the graph'),
+    'BD-4': ('bd.edges', 'the implicit input edge is added only for mark-less nodes other than the input node'),
+    'SW-6': ('bd.constructs', 'the builder translates SwitchCase into a flagged synthetic node, an is_switch edge and one '
+                              'case_branch edge per declared case'),
+    'OO-3': ('bd.constructs', 'the builder translates InputOneOf into a flagged head with the ordered candidate list and flags '
+                              'every candidate is_oneof_child'),
+    'RC-5': ('bd.constructs', 'the builder records start_node / max_iterations of a RecurrentSubGraph on the destination node'),
+    'BD-6': ('bd.node_map_and_validation', 'every visited node is in the node map; build returns copies'),
+    'VL-1': ('bd.node_map_and_validation', 'every node taken from the worklist is validated (all _check_* rules) before any other use'),
+    'VL-2': ('bd.node_map_and_validation', 'every node-valued field of every mark reaches the worklist'),
+    'VL-4': ('bd.node_map_and_validation', 'the recurrent validations dominate the construction of the DAG'),
+    'VL-3': ('bd.rejections', 'every rejection class is raised under its documented condition in code reachable from the build entries'),
+    'EX-1': ('ex.validation_first', 'DAG.run validates every needed pool before constructing the run manager'),
+    'EX-2': ('ex.decision_table', 'for all 8 kinds of node the pool run_node fetches is validated by DAG.run, following the builder\'s '
+                                  'flags through build() and DAG(...) (abstract interpretation of the three functions)'),
+    'EX-4': ('ex.is_ready', 'is_ready raises iff the pool or its manager is missing or shut down; get_pool_executor checks first'),
+    'EX-5': ('ex.dispatch_transparent', 'every dispatch leaf of run_node passes (*args, **kwargs) and returns the value unchanged'),
+    'FS-1': ('fs.mode_agreement', 'each serializer is handed a file opened in the mode (text/binary) its dump and load need'),
+    'FS-2': ('fs.rollback', 'a failed dump removes the file that made the key exist'),
+    'FS-3': ('fs.exact_key', 'the node id never reaches a glob pattern; the look-up file name equals the save file name'),
+    'FS-4': ('fs.exact_key', 'save / load start with the existence test of exactly this key and raise the documented errors'),
+    'AS-1': ('fs.saves', 'a Recurrent marker or a contained failure is never handed to the artifact store'),
+    'AS-2': ('fs.saves', 'only the owner of an execution saves, and not before the value is final'),
+    'AS-3': ('fs.saves', 'the (node id, value) saved are the ones published'),
+    'VW-1': ('vw.nodes_and_edges', 'exactly one node entry per DAG node on every path, synthetic nodes virtual and typed by prefix'),
+    'VW-2': ('vw.nodes_and_edges', 'exactly one edge entry per DAG edge, unfiltered, with an id derived from both endpoints'),
+    'VW-3': ('vw.pure', 'generating the description writes nothing rooted in the DAG'),
+    'VW-4': ('vw.schema', 'schema fields are JSON-closed; as_dict is asdict; generate assembles all parts from the generators'),
+    'VW-5': ('vw.types', 'every synthetic id prefix is a NodeType value and by_prefix scans every member'),
+    'VW-6': ('vw.types', 'no unguarded partial Enum(value) conversion of a declared node attribute'),
 }
 
 
@@ -210,4 +319,178 @@ _p(PropertySpec(
     technique='who-may-spawn check over all functions, post-dominance of the cancel-all loop over all exits (normal, exception, '
               'cancellation edges), effect scan of cleanup regions',
     floors={'LK-1': 1, 'LK-2': 1, 'LK-3': 1, 'LK-4': 1, 'LK-5': 4, 'LK-6': 1, 'ER-1': 1},
+))
+
+
+def _viol(inst):
+    return inst.verdict == 'VIOLATION'
+
+
+def _mentions(*words):
+    ws = [w.lower() for w in words]
+    return lambda inst: any(w in inst.construct.lower() for w in ws)
+
+
+# C02 also owns the finish predicates
+PROPERTIES['C02'].rules.append(('WK-g', None))
+PROPERTIES['C02'].rules.append(('ST-1', None))
+PROPERTIES['C02'].floors.update({'WK-g': 2, 'ST-1': 2})
+
+_p(PropertySpec(
+    'C03',
+    [('RD-1', None), ('RD-2', None), ('RD-3', None), ('RD-4', None), ('RD-5', None), ('RD-6', None), ('SW-3', None),
+     ('ST-1', None), ('OO-6', None), ('ER-6', None), ('SH-1', _viol)],
+    decides='the launch is gated by the readiness wait, readiness is strict over every store state (absent / hidden / Recurrent '
+            'predecessors never release a node), argument names and the switch indirection agree between builder, readiness and '
+            'argument delivery, the input node gets the caller\'s input_kwargs, failure objects become values only in one-of dags '
+            'and are gated before any consumer is launched, only the owner of an execution publishes its result',
+    not_decided='that the delivered value is the final one when results of a recurrent iteration are read from outside the '
+                'subgraph (graph shape and schedule dependent); coverage of the error gate for arbitrary graph shapes',
+    technique='dominance in the event CFG + finite-domain abstract interpretation of the readiness predicate over all store states '
+              '+ builder/manager vocabulary agreement',
+    floors={'RD-1': 1, 'RD-2': 1, 'RD-3': 10, 'RD-4': 1, 'RD-5': 1, 'RD-6': 2, 'SW-3': 2, 'OO-6': 1},
+))
+
+_p(PropertySpec(
+    'C09',
+    [('SW-1', None), ('SW-3', None), ('SW-4', None), ('SW-6', None), ('WK-a', None), ('ER-5', None),
+     ('WK-b', _mentions('switch', '_add_case_result')), ('RD-3', _mentions('is_switch', 'case_branch')), ('SH-1', _viol)],
+    decides='laziness (every sub-dag is cut from the view without case_branch edges, whose filter is evaluated over the attribute '
+            'domain), routing (readiness and argument delivery both resolve a switch to the selected case; the builder writes and '
+            'the manager reads the same attributes), per-iteration reset of the selected case, reuse of an already computed case '
+            '(consumers are notified), an unknown label is a guarded look-up that fails the run through the notifying raiser',
+    not_decided='that only demanded nodes run for every graph shape (a case that is also an ordinary dependency elsewhere is '
+                'legitimately executed); value correctness of the routed result',
+    technique='def-use of sub-dag constructions, abstract interpretation of the view filters and of the re-arming composite, '
+              'path analysis of the switch task root',
+    floors={'SW-1': 3, 'SW-3': 2, 'SW-4': 1, 'SW-6': 1, 'WK-a': 1, 'ER-5': 1},
+))
+
+_p(PropertySpec(
+    'C10',
+    [('OO-1', None), ('OO-2', None), ('OO-3', None), ('OO-4', None), ('OO-5', None), ('OO-6', None), ('RD-6', None),
+     ('WK-f', None), ('WK-g', _mentions('oneof')), ('SW-1', _mentions('filter_node', 'sub-dag')), ('ER-6', None), ('SH-1', _viol)],
+    decides='candidates are tried sequentially, lazily and in declared order; untried candidates are excluded from every executed '
+            'dag; the errors-as-values flag is inherited by every sub-dag; the error gate precedes every launch; exhaustion '
+            'yields OneOfDoesNotHaveResultError; the owner of a candidate is woken on deep failures and on None results; '
+            'candidate flags are per run',
+    not_decided='that a losing candidate\'s stored exceptions never make an unrelated one-of look failed (has_subgraph_error scans '
+                'whole dags), and that cancelling the local tasks of a failed branch never cancels work another consumer shares',
+    technique='region and path analysis of the role-discovered candidate loop, abstract interpretation of the wait predicate and '
+              'of the node filter, sibling cross-check of error gates',
+    floors={'OO-1': 1, 'OO-2': 1, 'OO-3': 1, 'OO-4': 3, 'OO-5': 1, 'OO-6': 1, 'RD-6': 2, 'WK-f': 1, 'WK-g': 1},
+))
+
+_p(PropertySpec(
+    'C11',
+    [('RC-1', None), ('RC-2', None), ('RC-4', None), ('RC-5', None), ('RD-2', None), ('SW-4', None), ('ST-1', None),
+     ('ON-3', None), ('SW-1', _mentions('sub-dag')), ('RD-5', None), ('SH-1', _viol)],
+    decides='the re-execution loop is bounded by exactly max_iterations and runs the subgraph once per iteration, the marker data '
+            'is handed over before every run through a per-run slot the argument builder reads, consumers are never released on a '
+            'Recurrent or hidden result, re-arming resets every store readiness and routing read and happens only in recurrent '
+            'contexts, exhaustion yields the default only for a marker under use_default and otherwise the documented error',
+    not_decided='that exactly the nodes on dependency paths are re-executed (semantics of nx.all_simple_paths on runtime graphs), '
+                'and nodes outside the subgraph reading intermediate results of an iteration',
+    technique='loop-shape and path analysis of the role-discovered iteration loop, abstract interpretation of readiness and of the '
+              're-arming composite',
+    floors={'RC-1': 2, 'RC-2': 1, 'RC-4': 1, 'RC-5': 1, 'RD-2': 1, 'SW-4': 1, 'ON-3': 2},
+))
+
+_p(PropertySpec(
+    'C12',
+    [('RT-1', None), ('RT-2', None), ('RT-3', None), ('RT-4', None), ('RT-5', None), ('RT-6', None)],
+    decides='the policy defaults (0 / 1 / (Exception,)), the handler classes around the invocation, argument agreement between body '
+            'and get_default, the sleep on every retry edge, the counter idiom whose inductive invariant gives exactly `attempts` '
+            'invocations, and the exits of both handlers (default only under use_default, otherwise re-raise; no retry of '
+            'non-retryable exceptions; BaseException untouched)',
+    not_decided='the actual number of invocations and the elapsed delay at run time (decided only through the shape of the one '
+                'retry loop; an unrecognised loop idiom is UNDECIDED, never a violation)',
+    technique='loop-idiom recognition with an inductive counter invariant, handler-class analysis, path analysis of the retry loop',
+    floors={'RT-1': 3, 'RT-2': 1, 'RT-3': 1, 'RT-4': 1, 'RT-5': 1, 'RT-6': 1},
+))
+
+_p(PropertySpec(
+    'C14',
+    [('EV-1', None), ('EV-2', None), ('EV-3', None)],
+    decides='under the property\'s own precondition (event managers do not raise) every control-flow path of PipelineChart.run '
+            'and of a node execution spells a word of the event language: one pipeline_start first, one pipeline_complete last '
+            'carrying the returned object; per node one start, one complete per attempt, complete(error=None) iff a value is '
+            'returned, the publish never before the final complete; every manager is called in order',
+    not_decided='ordering between events of different nodes (a property of schedules); managers that raise',
+    technique='path-language inclusion: product of the projected event CFG with a hand-written DFA, no loop unrolling',
+    floors={'EV-1': 1, 'EV-2': 1, 'EV-3': 1},
+))
+
+_p(PropertySpec(
+    'C15',
+    [('BD-1', None), ('BD-2', None), ('BD-3', None), ('BD-4', None), ('BD-6', None), ('VL-2', None), ('SW-6', None),
+     ('OO-3', None), ('RC-5', None), ('RD-3', None)],
+    decides='every collected mark is translated, every mark branch delivers its parameter by exactly one kwarg_name edge into the '
+            'consumer, the implicit input edge exists only for mark-less nodes, every declared node reaches the worklist and the '
+            'node map, the three constructs write the attributes the manager reads, build returns copies',
+    not_decided='that every defect-free declaration set builds, and order-independence for arbitrary class graphs (quantify over '
+                'programs); identity of node ids for classes with equal names',
+    technique='syntax-directed checks of the builder\'s mark dispatch against the mark dataclasses and the manager\'s attribute reads',
+    floors={'BD-1': 1, 'BD-2': 4, 'BD-3': 2, 'BD-4': 1, 'BD-6': 2, 'VL-2': 4, 'SW-6': 1, 'OO-3': 1, 'RC-5': 1, 'RD-3': 10},
+))
+
+_p(PropertySpec(
+    'C16',
+    [('VL-1', None), ('VL-2', None), ('VL-3', None), ('VL-4', None), ('VL-5', None)],
+    decides='every visited node is validated first, every node-valued field of every mark is visited, each of the nine rejection '
+            'classes is raised under its documented condition in code reachable from build_dag / build_dag_single / build_node, '
+            'the recurrent validations dominate the construction of the DAG, every public mark is translated or rejected',
+    not_decided='that every declaration set free of these defects builds successfully (quantifies over programs)',
+    technique='call-graph reachability from the build entries, syntactic guards of every raise against a frozen condition table, '
+              'statement-order dominance',
+    floors={'VL-1': 2, 'VL-2': 4, 'VL-3': 9, 'VL-4': 2, 'VL-5': 6},
+))
+
+_p(PropertySpec(
+    'C17',
+    [('EX-1', None), ('EX-2', None), ('EX-4', None), ('EX-5', None), ('CC-5', None)],
+    decides='pool validation precedes the run manager; for all 8 kinds of node (coroutine x process tag x non_async tag) the pool '
+            'that run_node fetches is one that DAG.run validated, following the flags from _is_executor_needed through build() '
+            'and DAG(...); is_ready raises exactly when a pool or its manager is missing or shut down; every dispatch leaf passes '
+            'the same arguments and returns the body\'s value unchanged',
+    not_decided='outcome equality under real pool timing (pickling, process boundaries, executor capacity)',
+    technique='abstract interpretation of run_node, _is_executor_needed, _start_runtime_validation and is_ready over the finite '
+              'domain of node kinds / registry states, plus dominance in DAG.run',
+    floors={'EX-1': 1, 'EX-2': 1, 'EX-4': 4, 'EX-5': 1},
+))
+
+_p(PropertySpec(
+    'C18',
+    [('FS-1', None), ('FS-2', None), ('FS-3', None), ('FS-4', None)],
+    decides='text/binary agreement between every serializer and the mode of the file it is handed (for save and load), rollback '
+            'of the created file when the dump fails, exactness of the key (no glob pattern, same file name template for save and '
+            'look-up), existence test first with the documented error classes',
+    not_decided='round-trip equality of values and the behaviour of the underlying filesystem (concurrent writers, crashes '
+                'between create and unlink)',
+    technique='stdlib fact table (which primitive writes str / bytes) against the open modes, syntactic try/rollback and '
+              'template comparison',
+    floors={'FS-1': 4, 'FS-2': 1, 'FS-3': 2, 'FS-4': 2},
+))
+
+_p(PropertySpec(
+    'C19',
+    [('AS-1', None), ('AS-2', None), ('AS-3', None)],
+    decides='what the engine hands to a configured store: the value classes at the save call (never a Recurrent marker or a '
+            'contained failure), who saves (only the owner of an execution) and when (not before the value is final), and that '
+            'the saved (id, value) are the published ones',
+    not_decided='behaviour of user-supplied stores; exactly-once over all schedules beyond the owner rule',
+    technique='guard analysis at the collaborator call, dominance by the processed mark, comparison of symbolic (id, value) terms',
+    floors={'AS-1': 2, 'AS-2': 2, 'AS-3': 1},
+))
+
+_p(PropertySpec(
+    'C20',
+    [('VW-1', None), ('VW-2', None), ('VW-3', None), ('VW-4', None), ('VW-5', None), ('VW-6', None)],
+    decides='one node entry per DAG node on every path (virtual nodes typed by id prefix, real nodes with declared data), one edge '
+            'entry per DAG edge with an id derived from both endpoints, no write to the DAG, JSON-closed schema serialised by '
+            'asdict, totality of by_prefix on the synthetic ids the builder generates, no partial Enum conversion of declared '
+            'node types',
+    not_decided='the content of documentation strings and source links (inspect at run time); the static viewer assets',
+    technique='CFG path counting in the node generator, comprehension shape of the edge generator, effect scan, schema type closure',
+    floors={'VW-1': 2, 'VW-2': 2, 'VW-3': 1, 'VW-4': 6, 'VW-5': 3, 'VW-6': 1},
 ))
